@@ -16,8 +16,12 @@
 (*     step only;                                                          *)
 (*   - a step marked omit_fwd (omit_inv) is passed over when the pipeline  *)
 (*     works forward (inverse) and applied otherwise;                      *)
-(*   - the stack starts empty for every application of a pipeline and is   *)
-(*     touched by stack steps only;                                        *)
+(*   - the stack starts empty for every OUTERMOST application and is        *)
+(*     touched by stack steps only; a step that is itself a pipeline (a    *)
+(*     macro with a pipeline body) works on the stack of its caller: it    *)
+(*     starts at the caller's depth and hands its depth back (a macro      *)
+(*     means its expansion - at first every pipeline level had a private   *)
+(*     stack here, as in the code; C04/C12 decided otherwise);             *)
 (*   - no operator reports more successes than there are tuples, a         *)
 (*     pipeline reports the minimum over the steps it applied (all tuples  *)
 (*     if it applied none), the missing inverse of a one-way operator      *)
@@ -47,7 +51,7 @@ VARIABLES built,    \* id -> sequence of [id, name, inverted, invertible, of, oi
 
 rvars == <<built, frames, last, hist>>
 
-None == [id |-> "-", count |-> 0]
+None == [id |-> "-", count |-> 0, depth |-> 0]
 StackNames == {"push", "pop", "stack"}
 
 Xor(req, inverted) == IF inverted THEN (IF req = "F" THEN "I" ELSE "F") ELSE req
@@ -79,7 +83,9 @@ Call(id, req, inverted, invertible, n) ==
           /\ Cur.id = id /\ Cur.inverted = inverted /\ Cur.invertible = invertible
           /\ req = Top.eff /\ n = Top.n
     /\ frames' = Append(frames, [id |-> id, eff |-> Xor(req, inverted), n |-> n, pipe |-> id \in DOMAIN built,
-                                 k |-> 0, cnt |-> -1, depth |-> 0, invertible |-> invertible])
+                                 k |-> 0, cnt |-> -1, invertible |-> invertible,
+                                 \* a pipeline applied as a step of a pipeline continues on its caller's stack
+                                 depth |-> IF Len(frames) > 0 /\ Top.pipe /\ id \in DOMAIN built THEN Top.depth ELSE 0])
     /\ hist' = Append(hist, <<>>)
     /\ UNCHANGED <<built, last>>
 
@@ -95,7 +101,7 @@ Ret(id, count, ran) ==
        ELSE (~Top.invertible /\ Top.eff = "I") => count = 0
     /\ frames' = SubSeq(frames, 1, Len(frames) - 1)
     /\ hist' = SubSeq(hist, 1, Len(hist) - 1)
-    /\ last' = IF Len(frames) > 1 /\ frames[Len(frames) - 1].pipe THEN [id |-> id, count |-> count] ELSE None
+    /\ last' = IF Len(frames) > 1 /\ frames[Len(frames) - 1].pipe THEN [id |-> id, count |-> count, depth |-> Top.depth] ELSE None
     /\ UNCHANGED built
 
 \* the pipeline passes over its current step
@@ -114,8 +120,9 @@ StepDone(id, dir, count, depth) ==
        THEN /\ last = None
             \* a failing `stack` step leaves nothing behind that a later step could pick up
             /\ (Cur.name = "stack" /\ count = 0 /\ Top.n > 0) => depth = 0
-       ELSE /\ last = [id |-> id, count |-> count]
-            /\ depth = Top.depth
+       ELSE /\ last.id = id /\ last.count = count
+            \* an elementary step leaves the stack alone; a pipeline step hands back the depth it ended with
+            /\ depth = IF id \in DOMAIN built THEN last.depth ELSE Top.depth
     /\ frames' = SetTop([Top EXCEPT !.k = @ + 1, !.cnt = Acc(@, count), !.depth = depth])
     /\ hist' = [hist EXCEPT ![Len(hist)] = Append(@, [id |-> id, count |-> count])]
     /\ last' = None
